@@ -16,7 +16,8 @@ LEVEL = 'exploration'
 SHARDS = {'quick': 4, 'thorough': 16}
 BUDGET_S = {'quick': 150, 'thorough': 420}
 RULE = ('seeded random histories of OMD operations (1-60 ops quick, to 200 thorough) over 6 keys / 6 '
-        'values with argument shapes list/tuple/one-shot iterator/dict/OMD/self/kwargs; after every op '
+        'values with argument shapes list/tuple/one-shot iterator/dict/OMD/self/kwargs and iterables that raise '
+        'part-way (the mapping must then be unchanged or hold the prefix, all reads agreeing); after every op '
         'the full read vector is compared with a list-of-pairs model; distinct = distinct model '
         'states (pair lists) reached with >= 2 pairs and a repeated key')
 ASSUMPTIONS = [
@@ -106,6 +107,18 @@ def build_arg(cls, shape, pairs, as_model=False):
             o.add(k, v)
         return o
     raise ValueError(shape)
+
+
+class Boom(Exception):
+    """Raised by the caller's iterable part-way through (dirty input)."""
+
+
+def failing(items, n):
+    for i, x in enumerate(items):
+        if i >= n:
+            break
+        yield x
+    raise Boom()
 
 
 def scribble(arg):
@@ -284,6 +297,19 @@ class Run(object):
         if st is not None:
             st.count('observation_vectors')
 
+    def settle(self, candidates, name):
+        """After an operation that failed part-way the model follows whichever permitted state the real object
+        is in; the full observation vector then checks that every read agrees with it."""
+        now = outcome(lambda: self.d.items(multi=True))
+        for c in candidates:
+            if now == ('ok', list(c)):
+                self.L = list(c)
+                if self.stats is not None:
+                    self.stats.monitor_evals += 1
+                    self.stats.count('failed_ops_settled')
+                return
+        self.fail('state[%s]' % name, 'after the failed %s items are %r; permitted: %r' % (name, now, candidates))
+
     # -- one operation
     def step(self, op):
         name = op[0]
@@ -323,6 +349,13 @@ class Run(object):
             k = KEYS[a['k']]
             vs = [VALS[v] for v in a['vs']]
             shape = a['shape']
+            if shape == 'gen-raises':
+                # the iterable raises after yielding a prefix: the error must reach the caller and the mapping
+                # must be left as it was, or with the prefix added - never with reads that disagree
+                n = min(a.get('fail_after', 0), len(vs))
+                expect(outcome(d.addlist, k, failing(vs, n)), ('exc', 'Boom'), 'result[addlist]')
+                self.settle([L, L + [(k, v) for v in vs[:n]]], 'addlist')
+                return
             if shape == 'shared-list':
                 # one list object owned by the caller and reused for several calls
                 arg = self.shared_list
@@ -346,6 +379,21 @@ class Run(object):
             shape = a['shape']
             pairs = dec_pairs(a.get('pairs', []))
             kw = dec_kw(a.get('kw', []))
+            if shape == 'gen-raises':
+                n = min(a.get('fail_after', 0), len(pairs))
+                arg = failing(pairs, n)
+                if name == 'update':
+                    got = outcome(lambda: d.update(arg, **dict(kw)))
+                    cand = m_update(L, 'list', pairs[:n], [])
+                elif name == 'update_extend':
+                    got = outcome(lambda: d.update_extend(arg, **dict(kw)))
+                    cand = m_update_extend(L, 'list', pairs[:n], [])
+                else:
+                    got = outcome(lambda: d.__ior__(arg))
+                    cand = m_update(L, 'list', pairs[:n], [])
+                expect(got, ('exc', 'Boom'), 'result[%s]' % name)
+                self.settle([L, cand], name)
+                return
             if shape == 'self':
                 arg = d
             else:
@@ -520,17 +568,21 @@ class Check(object):
             return [kind, {'k': k, 'v': v}]
         if kind == 'addlist':
             return [kind, {'k': k, 'vs': [r.choice(list(VALS)) for _ in range(r.choice([0, 1, 2, 3]))],
-                           'shape': r.choice(['list', 'list', 'tuple', 'iter', 'gen', 'shared-list', 'shared-list'])}]
+                           'shape': r.choice(['list', 'list', 'tuple', 'iter', 'gen', 'shared-list', 'shared-list',
+                                              'gen-raises']),
+                           'fail_after': r.randint(0, 3)}]
         if kind == 'delitem':
             return [kind, {'k': k}]
         if kind in ('update', 'update_extend', 'ior'):
             shapes = ['list', 'tuple', 'iter', 'gen', 'dict', 'omd']
             if kind != 'update_extend':
                 shapes.append('self')
-            shape = r.choice(shapes)
+            shape = r.choice(shapes + (['gen-raises'] if r.random() < 0.5 else []))
             a = {'shape': shape}
             if shape != 'self':
                 a['pairs'] = self.gen_pairs(r)
+            if shape == 'gen-raises':
+                a['fail_after'] = r.randint(0, 4)
             if kind != 'ior':
                 a['kw'] = self.gen_kw(r)
             return [kind, a]
@@ -627,7 +679,8 @@ class Check(object):
         name = 'update' if op[0] == 'ior' else op[0]
         parts = [name]
         if 'shape' in a:
-            parts.append({'list': 'pairs', 'tuple': 'pairs', 'iter': 'one-shot', 'gen': 'one-shot'}
+            parts.append({'list': 'pairs', 'tuple': 'pairs', 'iter': 'one-shot', 'gen': 'one-shot',
+                          'gen-raises': 'failing-iterable'}
                          .get(a['shape'], a['shape']) if name != 'new' else 'ctor-arg')
         if 'how' in a:
             parts.append(a['how'].rstrip('0123456789'))
